@@ -1,4 +1,5 @@
 import NriModel.Lemmas.MuxStream
+import NriModel.Lemmas.MuxOpen
 /-!
 Property theorems for C10 — multiplexed connections deliver each stream complete, in order
 and isolated.  Model: `NriModel/Mux.lean`.  `mp` = maximum frame payload, `qlen` = read queue
@@ -130,5 +131,37 @@ theorem unguarded_short_len_truncates :
     ∃ s, run (MuxSt.init { mp := 4, qlen := 4 })
         [.openNew 1 0, .deliver ⟨1, [1, 2, 3]⟩, .read 0 2 8 (.data [1, 2] 3)] = some s :=
   ⟨_, rfl⟩
+
+
+/-! ### `Open` is atomic: one connection per id
+
+`NriModel/MuxOpen.lean` models `Open` and `Close` at the granularity of `connLock`. -/
+
+/-- However Opens (of any ids) and a Close are ordered, every `Open(id)` hands out the SAME
+    connection as the first `Open(id)` did: a logical connection is one object per id, so what the
+    peer writes to the id reaches whoever holds "the" connection. (The code: lookup and
+    registration under one acquisition of `connLock`.) -/
+theorem C10_open_one_connection_per_id (pre evs : List MuxOpen.Ev) (id : Nat) :
+    let s1 := MuxOpen.openAtomic (MuxOpen.orun pre) id
+    (MuxOpen.openAtomic (MuxOpen.orun evs s1.1) id).2 = s1.2 := by
+  intro s1
+  have hreg := MuxOpen.openAtomic_registers (MuxOpen.orun pre) id
+  have hl := MuxOpen.orun_lookup evs hreg
+  show (MuxOpen.openAtomic (MuxOpen.orun evs s1.1) id).2 = s1.2
+  unfold MuxOpen.openAtomic
+  simp only [s1] at hl ⊢
+  rw [hl]
+
+/-- The same `Open` split into "look the id up" and, later, "register a new object if none was
+    SEEN" (a lookup under the read lock followed by creation under the write lock without a
+    re-check — seeded breakage C10-r6a): two racing Opens of id 5 get two different connections and
+    the first one is no longer the one the table routes frames to. -/
+theorem unfixed_split_open_two_connections :
+    let s0 : MuxOpen.OSt := {}
+    let a := MuxOpen.openCheck s0 5
+    let b := MuxOpen.openCheck s0 5
+    let (s1, ha) := MuxOpen.openInsert s0 a
+    let (s2, hb) := MuxOpen.openInsert s1 b
+    ha ≠ hb ∧ MuxOpen.lookup s2.table 5 = some hb := by decide
 
 end Nri.Props.C10
